@@ -34,6 +34,9 @@ CLAIMED = {
     "C03": ("symbolic execution of the real two-phase simplex (solve_lp/_phase1/_phase2/_pivot/_extract) with A structural and b (all reals) or c (multiples of 1/8, unbounded) symbolic; optimality via a fresh-variable z3 query / exact vertex-and-ray enumeration; interior point: exit tests from an arbitrary symbolic interior state",
             "Bounded model checking: for every A in the bound and EVERY right-hand side (resp. every cost vector on the 1/8 lattice): OPTIMAL => tau-feasible point, objective = c.x, no feasible point better, bounded; INFEASIBLE => exactly infeasible; UNBOUNDED => feasible and improving ray; MAX_ITER only at the limit. solve_lp_interior: FEASIBLE/OPTIMAL exits are primal feasible and faithfully scored from ANY interior state (1x1..2x2), optimality gap for 1x1.",
             GEN_NOTE + " Interior point: Newton step cut, convergence not claimed.", "DESIGN.md 4/C03"),
+    "C04": ("symbolic execution of solve_milp (branch and bound, node LPs through the real solve_lp, rounding heuristic, LNS, warm start, solution pool) with A, c structural and the right-hand side a vector of symbolic Ints; optimality against every integer point of the box (continuous coordinates as fresh existential Reals) by z3",
+            "Bounded model checking: sampled (A,c) cells with 2-3 variables (all-integer, mixed, binary-style) for EVERY right-hand side in -20..20: returned solution and every pool entry feasible and integral, objective = c.x, OPTIMAL => no integer-feasible point better, INFEASIBLE => none exists; options heuristics/warm start/LNS/solution_limit never change that.",
+            GEN_NOTE, "DESIGN.md 4/C04"),
     "C05": ("programs (CP models built through the public operators/constructors) run through the real Model.solve for solver in {auto,dfs,sat}, fresh and shared model objects, hints, symbolic solution_limit; z3 decides the reference semantics of the same descriptor",
             "Bounded model checking over a program grammar: every linear expression shape the operators can produce (20 shapes x ==/!=, sampled instantiations), every global constraint, two-constraint programs: every returned assignment is total, in-domain and satisfies the reference formula; INFEASIBLE only if z3 finds no solution; back-ends agree.",
             GEN_NOTE + " Instantiations of each shape are VERIF_SEED-sampled; no numeric symbolic dimension except solution_limit.", "DESIGN.md 4/C05"),
